@@ -6,7 +6,7 @@
 (* records that PoolCache.tla emits (operator H), with OBSERVED values:                          *)
 (*   op      "req" pm.request(url of key k, preload_content = (mode = "read")) -> response ref    *)
 (*           "goc" pm.connection_from_url(url of key k) -> handle ref                             *)
-(*           "hsend" request on the kept handle ref2... (ref = new response, p = the handle's pool)*)
+(*           "hsend" a request made directly on the kept handle h -> response ref                 *)
 (*           "fin" read response ref to the end   "dropr" / "droph" drop response / handle ref     *)
 (*           "clear" pm.clear()    "gc" gc.collect() followed by an observation                    *)
 (*   p, s    identity of the pool object returned / used and of the socket the request went over  *)
